@@ -154,8 +154,9 @@ type msgPlan struct {
 	Payload  []byte
 	Metadata map[string]string
 	PreKeys  int // how many of the four poison keys pre-exist
-	Handler  int // index of the router handler that receives it (router mode)
+	Handler  int // index of the router handler that receives it (router mode); -1 = dispatched directly (no Router context)
 	Attempts []attemptPlan
+	Ctx      []ctxInj // foreign context values application code stores on the message (extended classes)
 }
 
 func (p *msgPlan) attempt(k int) *attemptPlan {
@@ -221,10 +222,15 @@ func genAttempt(r *vlib.Rand, id string, sent error, allowOuts bool) attemptPlan
 	return a
 }
 
-func genMsg(r *vlib.Rand, id string, n int, sent error, handlers int, allowOuts func(h int) bool) *msgPlan {
+// genMsg draws one message plan. forceHandler >= -1 fixes the receiving handler (-1 = direct dispatch),
+// forceHandler < -1 draws it.
+func genMsg(r *vlib.Rand, id string, n int, sent error, handlers int, forceHandler int, allowOuts func(h int) bool) *msgPlan {
 	p := &msgPlan{UUID: fmt.Sprintf("%s-m%d-%s", id, n, r.UTF8(3)), Payload: r.Payload(24)}
 	p.Metadata, p.PreKeys = genMetadata(r)
 	p.Handler = r.Intn(handlers)
+	if forceHandler >= -1 {
+		p.Handler = forceHandler
+	}
 	for i, l := 0, r.Range(1, 4); i < l; i++ {
 		p.Attempts = append(p.Attempts, genAttempt(r, fmt.Sprintf("%s-a%d", p.UUID, i), sent, allowOuts(p.Handler)))
 	}
